@@ -19,6 +19,7 @@ LEVEL_NOTE = ("Not decided: validity and escaping of the JSON text (serde_json's
               "object member order of `attrs` follows hash order: objects are unordered in JSON, so this is not treated as a violation.")
 LEVEL_TEXT += (" Attribute names (the keys of every `attrs` object) are serialised as their own text; the fields of the private serialisation wrappers are resolved through their construction sites, so the wrappers' shape is free.")
 
+LEVEL_TEXT += (" (C14.S) in the list-member loops of Display / Debug for Value the separator is decided by position only; a variant's JSON payload entry is the payload itself, not a value computed from it.")
 VALUE = "tsg::graph::Value"
 
 
@@ -83,7 +84,8 @@ def run(prog, rep):
                 if v == "Null":
                     ok = ok and not rest
                 else:
-                    ok = ok and len(rest) == 1 and re.search(r"\(\*arg:self as %s\)\.0" % v, rest[0][1]) is not None and not rest[0][2]
+                    # the payload itself (a reference to it, or a field of the node reference): nothing computed from it
+                    ok = ok and len(rest) == 1 and re.match(r"^[&*]*\(\*arg:self as %s\)\.0(\.\w+)?$" % v, rest[0][1]) is not None and not rest[0][2]
                 rep.check(ok, "E8.j", key, f.loc(), "type=%s%s" % (tag, "" if v == "Null" else ", %s=payload" % rest[0][0] if rest else ""),
                           "JSON encoding of Value::%s is not {type: <tag>%s}: entries %s, map closed=%s" % (v, "" if v == "Null" else ", <payload of the variant>", entries, ended))
                 if tag:
@@ -250,6 +252,34 @@ def run(prog, rep):
                       "Debug for Value no longer renders strings through str's Debug (%d such calls): distinct strings can print alike" % sdbg)
         rep.check(not bad and good >= 2, "E8.d", "%s for Value :: nested formatting" % trait.rsplit("::", 1)[-1], f.loc(), "%d nested values formatted with %s" % (good, inner_ok),
                   "nested values are formatted with the other trait at %s (a quoted string would lose its quotes / gain them)" % bad)
+    # ---- separators of list / set members are decided by position, never by the member's value
+    rep.rule("C14.S", "in the list-member loops of Display / Debug for Value the only branches are the iterator's end, a failed write, and a test of the position (first-flag or enumerate index): no branch reads the member or the collection")
+    ns = 0
+    for f in [x for x in prog.shape_fns() if x.self_path == VALUE and x.name == "fmt" and x.trait in ("std::fmt::Debug", "std::fmt::Display") and x.body is not None]:
+        body, tr = f.body, Tracer(f.body)
+        for li, (h, bl) in enumerate(sorted(natural_loops(body))):
+            bad = []
+            over = ""
+            for b in sorted(bl):
+                es = switch_edges(body, tr, b)
+                if not es:
+                    continue
+                c = canon(es[0].cond)
+                if re.match(r"^Iterator::next\(", c) and {e.variant for e in es} <= {"Some", "None"}:
+                    over = c
+                    continue
+                if c.startswith("Try::branch(") and {e.variant for e in es} <= {"Continue", "Break"}:
+                    continue
+                if re.match(r"^\(?\(Iterator::next\(&(IntoIterator::into_iter\()?Iterator::enumerate\(.*\) as Some\)\.0\.0 (Eq|Ne|Gt|Lt|Ge|Le) \d+_usize\)?$", c):
+                    continue
+                if "Iterator::next(" in c or "arg:self" in c:
+                    bad.append("%s at %s" % (c[:100], sp_str(body.term(b).get("sp")) if body.term(b).get("sp") else "bb%d" % b))
+            if "as Set)" in over and "as List)" not in over:
+                continue        # members of a set are pairwise distinct: comparing with the first member is a test of the position
+            ns += 1
+            rep.check(not bad, "C14.S", "%s for Value :: member loop #%d" % (f.trait.rsplit("::", 1)[-1], li), f.loc(), "separator decided by position only",
+                      "a branch inside the member loop reads the member or the collection (%s): what is printed between two members depends on their values, so equal members can fuse or lose their separator" % "; ".join(bad[:2]))
+    rep.floor("C14.S", ns, 2, "list member loops of Display/Debug for Value")
     # ---- pretty print
     rep.rule("C14.P", "pretty_print: for every node (index order) `node i` + its attributes, then for every edge of its sorted edge vector `edge i -> sink` + the edge's attributes; Attributes' Display prints `name: {value:?}` for every name in sorted order")
     pp = [f for f in prog.shape_fns() if f.trait == "std::fmt::Display" and f.name == "fmt" and "pretty_print::DisplayGraph" in (f.self_path or f.id)]
